@@ -3271,6 +3271,7 @@ class Translator:
         an input of `<lean>`; this definition is what ties the *distribution* of that input to the source."""
         ps2 = [(n, t) for n, t in ps if n != "draws"]
         binder = "".join(f" ({lname(n)} : {lean_ty(t)})" for n, t in ps2)
+        where = where + "[weights]"       # problems of the companion concern the distribution of the draw only
         try:
             em = Emitter(self, where, self_ty)
             em.uses_draws = True
@@ -3289,6 +3290,8 @@ class Translator:
             self.out.append(f"/-- `{file}`: `{rust}`: weights (NOT TRANSLATED) -/\n"
                             f"def {lean}_weights{binder} : Option (List R) :=\n  none\n")
             msg = str(ex) if isinstance(ex, Unsupported) else f"{where}: weights companion: internal: {ex!r}"
+            if not msg.startswith(where):
+                msg = f"{where}: " + msg.split(": ", 1)[-1]
             self.problems.append(f"{os.path.basename(file)}: {msg}")
 
     def translate_fn(self, toks, file, rust, lean, struct=None, impl=None, fuel=None, nth=0, ret_override=None, doc=None, param_types=None, default_elem=None):
